@@ -50,6 +50,7 @@ struct _OrcLine {
     char *end;
     const char *tokens[ORC_LINE_MAX_TOKENS];
     int n_tokens;
+    int too_many_tokens;
 };
 
 typedef struct _OrcDirective OrcDirective;
@@ -195,6 +196,12 @@ orc_parse_code (const char *code, OrcProgram ***programs, int *n_programs,
       continue;
     }
 
+    if (line->too_many_tokens) {
+      orc_parse_add_error (parser, "too many tokens (at most %d)",
+          ORC_LINE_MAX_TOKENS);
+      continue;
+    }
+
     if (orc_line_is_directive (line)) {
       orc_parse_handle_directive (parser, line);
     } else {
@@ -312,6 +319,10 @@ orc_line_parse_tokens (OrcLine *line)
   while (line->p < line->end) {
     orc_line_skip_blanks (line);
     if (!orc_line_has_data (line) || orc_line_is_comment (line)) {
+      break;
+    }
+    if (line->n_tokens >= ORC_LINE_MAX_TOKENS) {
+      line->too_many_tokens = TRUE;
       break;
     }
     orc_line_add_token (line);
